@@ -289,6 +289,7 @@ func runCase(c Case, dir string) (err error, counts map[string]int) {
 	first := runOnce(sess, spec, base)
 	counts = vfault.Counts()
 	fired := vfault.Fired()
+	readPaths := vfault.ReadPaths()
 	vfault.Set(nil)
 	if first.err != nil && strings.Contains(first.err.Error(), "wedged") {
 		delete(sessions, c.Exec)
@@ -312,6 +313,20 @@ func runCase(c Case, dir string) (err error, counts map[string]int) {
 				if use && cn.private && anyStream(first.streams[cn.obs], s) {
 					return fmt.Errorf("%s node %d: shard %d was present in the cache (all present: %v), yet its upstream computation ran", cn.n.Op, cn.id, s, allPre(cn)), counts
 				}
+			}
+		}
+	}
+	// Cache is all-or-nothing: unless every shard file is present, no shard may be served from a file.
+	// (Local executor only: there the slice is constructed once, before anything is written. On
+	// bigmachine a worker that compiles the invocation after the missing shards have been written
+	// by other workers legitimately finds the cache complete.)
+	for _, cn := range nodes {
+		if cn.n.Op != "cache" || allPre(cn) || c.Exec != "local" {
+			continue
+		}
+		for s := 0; s < cn.n.Shards; s++ {
+			if p := cachePath(work, cn.n, s); preexisting(cn, s) && readPaths[p] > 0 {
+				return fmt.Errorf("cache node %d: not all of its %d shard files were present, yet the pre-existing file of shard %d was read (%d reads): Cache may use cached shards only if all shards are present", cn.id, cn.n.Shards, s, readPaths[p]), counts
 			}
 		}
 	}
@@ -409,7 +424,7 @@ const testName = "TestVerifC13Cache"
 
 func TestVerifC13Cache(t *testing.T) {
 	rec := vt.New("C13", "cache",
-		"rapid: progen programs with Cache / CachePartial at any position (after sources, in the middle, before and after shuffles, under Head which stops reading early), each with an observer directly upstream; a random subset of shard files pre-exists (copied from a clean run); local executor or bigmachine test system; the first run is executed fault-free to learn its trace of underlying file operations (through the vfault:// file implementation) and then re-run from the same initial files once for EVERY (operation kind, ordinal) of that trace with that operation failing (writes also short); oracle: rows equal the uncached reference whenever a run succeeds; cached shards (Cache: only if all shards are present) are not recomputed; after ANY run every file under the prefix decodes completely to exactly the rows the writing computation produced, no file exists for a shard whose computation did not reach its end; a clean run afterwards is correct and skips what is cached; evaluations = scenarios incl. fault variants; non-trivial = a fault fired or a proper non-empty subset pre-existed; distinct by (program, executor, mask, fault)")
+		"rapid: progen programs with Cache / CachePartial at any position (after sources, in the middle, before and after shuffles, under Head which stops reading early), each with an observer directly upstream; a random subset of shard files pre-exists (copied from a clean run); local executor or bigmachine test system; the first run is executed fault-free to learn its trace of underlying file operations (through the vfault:// file implementation) and then re-run from the same initial files once for EVERY (operation kind, ordinal) of that trace with that operation failing (writes also short); oracle: rows equal the uncached reference whenever a run succeeds; cached shards (Cache: only if all shards are present) are not recomputed; on the local executor a Cache with an incomplete set of shard files reads none of them; after ANY run every file under the prefix decodes completely to exactly the rows the writing computation produced, no file exists for a shard whose computation did not reach its end; a clean run afterwards is correct and skips what is cached; evaluations = scenarios incl. fault variants; non-trivial = a fault fired or a proper non-empty subset pre-existed; distinct by (program, executor, mask, fault)")
 	defer func() {
 		for k, s := range sessions {
 			s.Close()
